@@ -55,11 +55,7 @@ func (s sel) css() string {
 		b.WriteString(":" + s.side)
 	}
 	if s.nth != nil {
-		if s.nth[1] < 0 {
-			fmt.Fprintf(&b, ":nth(%dn%d)", s.nth[0], s.nth[1])
-		} else {
-			fmt.Fprintf(&b, ":nth(%dn+%d)", s.nth[0], s.nth[1])
-		}
+		fmt.Fprintf(&b, ":nth(%dn%+d)", s.nth[0], s.nth[1])
 	}
 	return b.String()
 }
@@ -140,7 +136,9 @@ func genLenDecl(r *rng.R, prop string, allowAuto bool) decl {
 
 func genSel(r *rng.R) sel {
 	s := sel{}
-	switch r.Intn(8) {
+	switch r.Intn(9) {
+	case 8:
+		s.nth = &[2]int{r.Range(-2, -1), r.Range(1, 8)}
 	case 0:
 		s.first = true
 	case 1:
@@ -159,7 +157,11 @@ func genSel(r *rng.R) sel {
 			s.side = rng.Pick(r, "left", "right")
 		}
 	case 6:
-		s.nth = &[2]int{r.Intn(4), r.Range(-1, 3)}
+		// an+b with negative, zero and positive a; b below 1 and beyond the page count
+		s.nth = &[2]int{r.Range(-3, 3), r.Range(-2, 12)}
+		if r.P(1, 3) {
+			s.side = rng.Pick(r, "left", "right") // :nth(-n+3):left
+		}
 	default:
 		s.side = rng.Pick(r, "left", "right")
 		s.first = r.Bool()
@@ -192,6 +194,12 @@ func genRules(r *rng.R) ruleSet {
 			switch {
 			case s.nth != nil:
 				rs.features[":nth"] = true
+				if s.nth[0] < 0 {
+					rs.features[":nth(-an+b)"] = true
+				}
+				if s.nth[0] == 0 {
+					rs.features[":nth(0n+b)"] = true
+				}
 			case s.name != 0:
 				rs.features["named"] = true
 			case s.blank:
@@ -401,7 +409,8 @@ func Run(tier string, seed uint64, modelPath, repo string, out *res.Result) erro
 		n = 50000
 	}
 	out.Rule = "class-F documents of the C02 generator (levels 0-3, named pages n1/n2 via `page`, break values incl. recto/verso) x @page rule sets " +
-		"(base rule with size + margins + @top-center counter box; 0-4 further rules with selectors :first :left :right :blank :nth(an+b) n1 n2 and combinations, selector lists, " +
+		"(base rule with size + margins + @top-center counter box; 0-4 further rules with selectors :first :left :right :blank :nth(an+b) (a in -3..3, b in -2..12, also :nth():left) n1 n2 and combinations, selector lists, " +
+		"root element direction ltr/rtl (1/3 rtl) and break-before left/right/recto/verso (1/4), " +
 		"declarations margin-top/bottom/left (px, %, auto, !important), size, height); non-trivial = >= 2 pages and >= 2 @page rules; distinct by full HTML text"
 	render.Quiet()
 	fonts, err := render.NewFonts(repo)
@@ -419,7 +428,29 @@ func Run(tier string, seed uint64, modelPath, repo string, out *res.Result) erro
 		sub := r.Sub()
 		cs := sub.Seed()
 		rs := genRules(sub)
-		doc := c02.GenClassF(sub, c02.GenOpts{Level: i % 4, NamedPages: i%3 != 0, Sides: i%2 == 0}, rs.css())
+		// the root element's direction (read by initializePageMaker / remakePage for recto / verso) and its
+		// own break-before (the side of the first page)
+		ltr := !sub.P(1, 3)
+		rootBB := "auto"
+		if sub.P(1, 4) {
+			rootBB = rng.Pick(sub, "left", "right", "recto", "verso")
+		}
+		extra := ""
+		if !ltr {
+			extra += "html{direction:rtl}"
+		}
+		if rootBB != "auto" {
+			extra += "html{break-before:" + rootBB + "}"
+		}
+		doc := c02.GenClassF(sub, c02.GenOpts{Level: i % 4, NamedPages: i%3 != 0, Sides: i%2 == 0 || !ltr}, rs.css()+extra)
+		doc.Root.St.BB = rootBB
+		doc.LTR = ltr
+		if !ltr {
+			out.Hit("doc:rtl")
+		}
+		if rootBB != "auto" {
+			out.Hit("doc:root-break-before")
+		}
 		if err := oneCase(m, doc, rs, cs, fonts, out); err != nil {
 			return err
 		}
@@ -485,7 +516,7 @@ func oneCase(m *mp.Model, doc *c02.ClassF, rs ruleSet, seed uint64, fonts text.F
 	}
 
 	// ---- correspondence with the model
-	req := sx.L(sx.A("c12"), sx.I(80), sx.B(true), sx.I(2*(doc.NTok+40)+2), rs.x(), doc.Root.X())
+	req := sx.L(sx.A("c12"), sx.I(80), sx.B(doc.LTR), sx.I(2*(doc.NTok+40)+2), rs.x(), doc.Root.X())
 	ans, err := m.Ask(req)
 	if err != nil {
 		return err
